@@ -216,3 +216,15 @@ _R14 = {
 }
 for _k, _v in _R14.items():
     TEXTS[_k]["text"] += _v
+
+# clauses added after round 15
+_R15 = {
+    "C01": " Also (R01.k): no code compiled in or out by the build mode / target (only debug_assert!); no impl overrides a provided method of the crate's traits.",
+    "C03": " Also: the query tokeniser splits and strips on the same classes as the record tokeniser (R03.p); the Jaccard clip is min(query length + 1, record length) on the whole query word.",
+    "C04": " Also (R04.o): for an unfinished query word the Jaccard gate compares the whole query word with the record prefix of min(query length + 1, record length).",
+    "C05": " Also: the highlighted slice is exactly source[slice.0 + subslice.0 .. slice.0 + subslice.1].",
+    "C09": " Also: the highlighted slice is exactly source[slice.0 + subslice.0 .. slice.0 + subslice.1].",
+    "C17": " Also (R17.b): non-empty inputs of small concrete sizes reach the set computation (no shortcut for one-element inputs).",
+}
+for _k, _v in _R15.items():
+    TEXTS[_k]["text"] += _v
